@@ -408,7 +408,8 @@ func (m *monitor) onOpcode(pc uint64, op byte, gas, cost uint64, scope tracing.O
 			m.maxMem = ml
 		}
 	}
-	if op == proggen.GAS {
+	if op == proggen.GAS || op == proggen.GASLIMIT {
+		// GASLIMIT: the runtime environment reports the message's gas limit as block gas limit
 		m.gasOpSeen = true
 	}
 	if op == proggen.SSTORE {
@@ -432,7 +433,9 @@ func (m *monitor) onOpcode(pc uint64, op byte, gas, cost uint64, scope tracing.O
 			}
 		}
 	} else {
-		// failing step: whatever was charged is burnt with the rest
+		// failing step: whatever was charged is burnt with the rest; `gas` is the real balance at
+		// the start of the step (it includes any unreported Amsterdam state-gas repayment)
+		f.cur, f.curValid = tracing.Gas{Execution: gas, State: f.cur.State}, true
 		f.expect = gas
 		f.loose, f.looseLo, f.looseHi = true, gas, 0
 	}
